@@ -13,10 +13,11 @@
 //    thread overwrites its own copy of the payload as soon as send() has returned)
 //   RD <payload> | EOF | RERR | HUP | ERR | RET <n> | SHUT | XSHUT | FC | FCD | DFIRE
 //   SR | SP | XSR | XSP | ODESTROY
-//   XRC <t> shut|fc | XRS <t> | XRE <t>     a shutdown() / forceClose() issued on a foreign thread, cut at its
+//   XRC <t> shut|fc|fcd | XRS <t> | XRE <t>     a shutdown() / forceClose() / forceCloseWithDelay(1.0) issued on a foreign thread, cut at its
 //       plain load of state_ (XRC runs the REAL member function on a real foreign thread up to its setState),
 //       its plain store (XRS lets it execute setState and run on to the first pthread_mutex_lock of queueInLoop)
-//       and its hand-off (XRE lets it enqueue and return).  TcpConnection.cc is compiled INTO this translation
+//       and its hand-off (XRE lets it enqueue and return; for fcd the functor it enqueues is TimerQueue::addTimerInLoop,
+//       the timer exists only once the loop has run it).  TcpConnection.cc is compiled INTO this translation
 //       unit with `setState(s)` rewritten to `setState((verif_stall_store(), (s)))`: no change to the source; only
 //       a thread armed by XRC ever stalls there (technique shared with harness/C02_sys.cc).
 // end
@@ -493,7 +494,7 @@ int main()
       if (requests.count(t)) rejected = true;   // one call at a time per thread
       else
       {
-        bool fc = (w[2] == "fc");
+        int fc = (w[2] == "fc") ? 1 : (w[2] == "fcd") ? 2 : 0;
         Request& r = requests[t];
         r.rel_store = new sem_t; r.rel_enq = new sem_t;
         sem_init(r.rel_store, 0, 0); sem_init(r.rel_enq, 0, 0);
@@ -509,7 +510,7 @@ int main()
           t_stall = true;
           t_stalled_once = false;
           *atStore = true;             // cleared below if the call returns without reaching its store
-          if (fc) c->forceClose(); else c->shutdown();
+          if (fc == 1) c->forceClose(); else if (fc == 2) c->forceCloseWithDelay(1.0); else c->shutdown();
           if (t_stall_store) { *atStore = false; t_stall_store = false; sem_post(&g_reached); }   // test failed: no store, no hand-off
           t_stall = false;
         });
